@@ -29,6 +29,24 @@ CLAIMED = {
         ref="DESIGN.md 3/C10"),
 }
 
+CLAIMED.update({
+    "C15": dict(
+        text="Proof on the real sys_path / dynamic_import / GriffeLoader.load / _load_module_path / _inspect_module / _load_module / _load_submodule bodies: "
+             "sys.path identity restored on every exit (any exception class, body rebinding sys.path), only ImportError escapes dynamic_import, every "
+             "inspection / dynamic-import call site is dead when inspection is disallowed, compiled modules rejected; plus a syntactic lemma closing the "
+             "execution frontier (functions containing import/exec/subprocess primitives and their callers).",
+        note="Foreign calls (import_module, getattr on foreign objects, find_spec, visit, inspect) are opaque summaries that may raise any BaseException; "
+             "exceptions by handler-equivalence representatives; extensions are the user's code.",
+        ref="DESIGN.md 3/C15"),
+    "C16": dict(
+        text="Per-operation proof on the real mixins/collections/Alias code over symbolic object trees: _get_parts, get_member/__getitem__ (modular recursion, "
+             "dotted == chained), del_member/__delitem__ (deleted member gone, frame), __setitem__/set_member (parent/collection link, alias retargeting, frame), "
+             "Alias.target/parent setters (self-target guard, listing under current path), Object.path. Whole-history invariants are a bounded scenario sweep.",
+        note="Distinct fixtures have distinct identities (aliasing cases built explicitly); path() abstracted per heap version; merge_stubs and "
+             "Alias.final_target taken by contract. Known finding C16-F1 (bottom-up construction) listed.",
+        ref="DESIGN.md 3/C16"),
+})
+
 NA_REASON = {
     "C17": "relates two whole-program analyses through CPython's run-time object model; a contract for the inspector would have to assume the very "
            "object model the property compares against, so no obligation over /repo code alone implies agreement (DESIGN.md section 4)",
